@@ -4,6 +4,9 @@ import Heathcliff.Proofs.C01Q
 import Heathcliff.Proofs.C01P
 import Heathcliff.Proofs.C01O
 import Heathcliff.Proofs.C01J
+import Heathcliff.Proofs.C01V
+import Heathcliff.Proofs.C01X
+import Heathcliff.Proofs.C01Y
 import Heathcliff.Proofs.GenScalingSpec
 
 /- Property theorems only (statements verbatim; proofs are the helper lemmas of Heathcliff/Proofs). -/
@@ -404,5 +407,185 @@ theorem ckks_encrypt_decrypt_of_fresh : type_of% @HC.ckks_encrypt_decrypt_of_fre
 theorem ckks_encrypt_decrypt_pk : type_of% @HC.ckks_encrypt_decrypt_pk := @HC.ckks_encrypt_decrypt_pk
 theorem ckks_encrypt_decrypt_sk : type_of% @HC.ckks_encrypt_decrypt_sk := @HC.ckks_encrypt_decrypt_sk
 theorem ckks_encrypt_decrypt_pk_sp : type_of% @HC.ckks_encrypt_decrypt_pk_sp := @HC.ckks_encrypt_decrypt_pk_sp
+
+
+/-! ### END TO END ON THE DRIVER'S OWN OBJECTS (Proofs/C01U, C01V; concrete satisfiable instances of every hypothesis: Proofs/C01VW).
+    No hypothesis bundle is left abstract: levels are what `Drv.Sch.mkLevel` returns, context constants are what the driver computes from
+    their definitions (`Drv.C01E.bfvConsts`, `Drv.C01E.bgvIncr`), the public key is what the model's `genPublicKey` returns
+    (`DrvCtx`), the call of `encrypt_zero_internal` is one of the admissible ones (`DrvMode`: public key at the head of the chain,
+    public key through the previous level = special-prime path and every lower level, secret key / seed-compressed), the drawn
+    polynomials are in their proved ranges (ternary, ‖e‖∞ ≤ 21), the plaintext is valid, and a decidable margin holds. -/
+
+/-- U1: `mkLevel` on a modulus list and on a prefix of it: same `Modulus` / `NTTTables` objects in the common positions, same plain
+    modulus and scheme (`LevelPrefix`) -/
+theorem mkLevel_prefix : type_of% @HC.mkLevel_prefix := @HC.mkLevel_prefix
+
+/-- U1': the whole bundle `PrevLevelOK` of the special-prime path for the levels on `qs` and `qs ++ [qL]` (only input hypothesis: a
+    BGV context has t ≠ 0) -/
+theorem mkLevel_prevLevelOK : type_of% @HC.mkLevel_prevLevelOK := @HC.mkLevel_prevLevelOK
+
+/-- U2: the BFV constants the driver computes (`bfvConsts`: Harvey operands of ⌊Q/t⌋ mod q_j) exist and satisfy `ScalingOK` -/
+theorem bfvConsts_scalingOK : type_of% @HC.bfvConsts_scalingOK := @HC.bfvConsts_scalingOK
+
+/-- U3: the BGV lift constants the driver computes (`bgvIncr`: fast path iff every q_i > t) satisfy `BgvLiftOK` when t < Q -/
+theorem bgvIncr_liftOK : type_of% @HC.bgvIncr_liftOK := @HC.bgvIncr_liftOK
+
+/-- the generated public key of a `DrvCtx` is an encryption of zero with error tt·e, ‖e‖∞ ≤ 21 -/
+theorem drvCtx_pkRel : type_of% @HC.DrvCtx.pkRel := @HC.DrvCtx.pkRel
+
+/-- EVERY ADMISSIBLE CALL of `encrypt_zero_internal` on the driver's objects IS A FRESH ENCRYPTION OF ZERO within the bound of its mode:
+    21(2N+1) (public key, head of the chain), ⌊(2·21(2N+1) + slack·q_L(1+N))/(2q_L)⌋ (through the previous level), 21 (secret key) -/
+theorem drvMode_fresh {scheme : Scheme} {n t : Nat} {kqs : List Nat} {kl : Level} {sk : Array Int} {pk0 pk1 : RnsPoly}
+    {lqs : List Nat} {l : Level} {mode : EncMode} {B : Nat}
+    (hc : DrvCtx scheme n t kqs kl sk pk0 pk1) (hl : Drv.Sch.mkLevel scheme n lqs t = .ok l)
+    (hm : DrvMode scheme n t kqs sk pk0 pk1 lqs l mode B) :
+    ∃ ν : Nat → Int, FreshZero l sk (encryptZeroInternal l mode) ν ∧ ∀ c, c < l.n → (ν c).natAbs ≤ B := HC.drvMode_fresh hc hl hm
+
+/-- the BFV margin from the inputs: 4·t·(B+1) ≤ Q implies `FreshEncOK l B` for the level `mkLevel` builds (γ > 2^60, ≤ 64 moduli) -/
+theorem mkLevel_freshEncOK : type_of% @HC.mkLevel_freshEncOK := @HC.mkLevel_freshEncOK
+
+/-- the BGV margin IS the input condition 2·t·(B+1) < Q -/
+theorem mkLevel_freshEncOKBgv : type_of% @HC.mkLevel_freshEncOKBgv := @HC.mkLevel_freshEncOKBgv
+
+/-- V1, END TO END, BFV, ALL MODES AT ONCE: `bfvDecrypt l sk (bfvEncrypt … m) = m` (padded to N, trimmed) for every plaintext of length
+    ≤ N with coefficients < t, under the decidable margin `FreshEncOK l B` of the mode's bound B -/
+theorem drv_bfv_encrypt_decrypt {n t : Nat} {kqs : List Nat} {kl : Level} {sk : Array Int} {pk0 pk1 : RnsPoly}
+    {lqs : List Nat} {l : Level} {mode : EncMode} {B : Nat}
+    (hc : DrvCtx .bfv n t kqs kl sk pk0 pk1) (hl : Drv.Sch.mkLevel .bfv n lqs t = .ok l) (ht : t ≠ 0)
+    (hm : DrvMode .bfv n t kqs sk pk0 pk1 lqs l mode B)
+    {plain : Poly} (hp : plain.size ≤ n) (hpm : ∀ i, i < plain.size → plain.getD i 0 < t) (hok : FreshEncOK l B) :
+    ∃ cdp ct, Drv.C01E.bfvConsts l lqs t = .ok cdp ∧
+      bfvEncrypt l cdp (Spec.prodL lqs % t) ((t + 1) / 2) mode plain = .ok ct ∧
+      bfvDecrypt l sk ct = .ok (trimPlain (padPlain n plain)) := HC.drv_bfv_encrypt_decrypt hc hl ht hm hp hpm hok
+
+/-- V1 with the margin on the inputs: 4·t·(B+1) ≤ Q -/
+theorem drv_bfv_encrypt_decrypt_inputs : type_of% @HC.drv_bfv_encrypt_decrypt_inputs := @HC.drv_bfv_encrypt_decrypt_inputs
+
+/-- V2, END TO END, BGV, ALL MODES AT ONCE, lift constants chosen by the driver's own rule (fast / multi-word), fresh correction factor 1,
+    margin 2·t·(B+1) < Q on the inputs -/
+theorem drv_bgv_encrypt_decrypt {n t : Nat} {kqs : List Nat} {kl : Level} {sk : Array Int} {pk0 pk1 : RnsPoly}
+    {lqs : List Nat} {l : Level} {mode : EncMode} {B : Nat}
+    (hc : DrvCtx .bgv n t kqs kl sk pk0 pk1) (hl : Drv.Sch.mkLevel .bgv n lqs t = .ok l)
+    (hm : DrvMode .bgv n t kqs sk pk0 pk1 lqs l mode B)
+    {plain : Poly} (hp : plain.size ≤ n) (hpm : ∀ i, i < plain.size → plain.getD i 0 < t)
+    (hok : 2 * (t * (B + 1)) < Spec.prodL lqs) :
+    ∃ ct, bgvEncrypt l (Drv.C01E.bgvIncr lqs t).1 ((t + 1) / 2) (Drv.C01E.bgvIncr lqs t).2 mode plain = .ok ct ∧ ct.cf = 1 ∧
+      bgvDecrypt l sk ct = .ok (trimPlain (padPlain n plain)) := HC.drv_bgv_encrypt_decrypt hc hl hm hp hpm hok
+
+/-- CKKS on ANY fresh zero, OVER THE INTEGERS: plaintext encoding the integer polynomial M, 2(|M_c| + B) < Q: the exact phase (centred lift
+    of the decryption) is EXACTLY M + ν, the decrypted residues are those of M + ν -/
+theorem ckks_encrypt_decrypt_int_of_fresh : type_of% @HC.ckks_encrypt_decrypt_int_of_fresh := @HC.ckks_encrypt_decrypt_int_of_fresh
+
+/-- the NTT-form RNS plaintext of an integer polynomial is canonical and its coefficient form is M modulo every q_i -/
+theorem ckksPlainOfInt_spec : type_of% @HC.ckksPlainOfInt_spec := @HC.ckksPlainOfInt_spec
+
+/-- V3, END TO END, CKKS, ALL MODES AT ONCE, OVER THE INTEGERS: `ckksDecrypt (ckksEncrypt M) = M + ν` coefficient-wise (centred lift =
+    the driver oracle's `exactPhase`; residues of the decrypted RNS plaintext), ‖ν‖∞ ≤ B -/
+theorem drv_ckks_encrypt_decrypt {n t : Nat} {kqs : List Nat} {kl : Level} {sk : Array Int} {pk0 pk1 : RnsPoly}
+    {lqs : List Nat} {l : Level} {mode : EncMode} {B : Nat}
+    (hc : DrvCtx .ckks n t kqs kl sk pk0 pk1) (hl : Drv.Sch.mkLevel .ckks n lqs t = .ok l)
+    (hm : DrvMode .ckks n t kqs sk pk0 pk1 lqs l mode B)
+    {M : Array Int} (hMs : M.size = n) (hsmall : ∀ c, c < n → 2 * ((M.getD c 0).natAbs + B) < Spec.prodL lqs) :
+    ∃ (ν : Nat → Int) (ct : Ct) (dec : RnsPoly), (∀ c, c < n → (ν c).natAbs ≤ B) ∧
+      ckksEncrypt l mode (ckksPlainOfInt l M) = .ok ct ∧ ckksDecrypt l sk ct = .ok dec ∧ RnsCanon l dec ∧
+      (∀ c, c < n → (Drv.Sch.exactPhase l lqs sk ct).getD c 0 = M.getD c 0 + ν c) ∧
+      ∀ i, i < l.size → ∀ c, c < n → (intt (l.tbl i) (dec.getD i #[])).getD c 0 = Spec.imod (M.getD c 0 + ν c) (l.q i).value :=
+  HC.drv_ckks_encrypt_decrypt hc hl hm hMs hsmall
+
+/-- V4: any fresh encryption of zero within the margin decrypts to the zero plaintext (BFV / BGV) -/
+theorem bfv_decrypt_fresh_zero : type_of% @HC.bfv_decrypt_fresh_zero := @HC.bfv_decrypt_fresh_zero
+theorem bgv_decrypt_fresh_zero : type_of% @HC.bgv_decrypt_fresh_zero := @HC.bgv_decrypt_fresh_zero
+
+/-- the zero plaintext as the decryptor returns it -/
+theorem trimPlain_padPlain_empty : type_of% @HC.trimPlain_padPlain_empty := @HC.trimPlain_padPlain_empty
+
+/-- V4, END TO END, `encrypt_zero_at` (every level, every mode): decrypts to `#[0]` (BFV; BGV with correction factor 1); CKKS: the centred
+    lift of the decryption IS the noise ν, ‖ν‖∞ ≤ B, whenever 2B < Q -/
+theorem drv_bfv_encrypt_zero_decrypt : type_of% @HC.drv_bfv_encrypt_zero_decrypt := @HC.drv_bfv_encrypt_zero_decrypt
+theorem drv_bgv_encrypt_zero_decrypt : type_of% @HC.drv_bgv_encrypt_zero_decrypt := @HC.drv_bgv_encrypt_zero_decrypt
+theorem drv_ckks_encrypt_zero_decrypt : type_of% @HC.drv_ckks_encrypt_zero_decrypt := @HC.drv_ckks_encrypt_zero_decrypt
+
+/-! ### the SEED-COMPRESSED path end to end (Proofs/C01X; concrete instance with the driver's rejection sampler: Proofs/C01XW) -/
+
+/-- X1: with a saved seed, polynomial 1 of the symmetric encryption of zero IS the mask the seed expands to (either form) -/
+theorem encryptZeroSym_seeded_shape : type_of% @HC.encryptZeroSym_seeded_shape := @HC.encryptZeroSym_seeded_shape
+theorem encryptZeroInternal_seeded_shape : type_of% @HC.encryptZeroInternal_seeded_shape := @HC.encryptZeroInternal_seeded_shape
+
+/-- … the plaintext layers touch polynomial 0 only -/
+theorem bfvEncrypt_seeded_shape : type_of% @HC.bfvEncrypt_seeded_shape := @HC.bfvEncrypt_seeded_shape
+theorem bgvEncrypt_seeded_shape : type_of% @HC.bgvEncrypt_seeded_shape := @HC.bgvEncrypt_seeded_shape
+theorem ckksEncrypt_seeded_shape : type_of% @HC.ckksEncrypt_seeded_shape := @HC.ckksEncrypt_seeded_shape
+
+/-- X2: storing (c0, seed) and expanding restores the ciphertext whenever the seed expands to its polynomial 1 (`SeedExpands`) -/
+theorem expandSeed_of_shape : type_of% @HC.expandSeed_of_shape := @HC.expandSeed_of_shape
+
+/-- X2, END TO END, SEED-COMPRESSED: the driver's pipeline for `mode = seed` — encrypt (expanded view), store (c0, seed), `expand_seed`,
+    decrypt — returns the plaintext (BFV, BGV; CKKS: M + ν over the integers) -/
+theorem drv_bfv_encrypt_decrypt_seeded {n t : Nat} {kqs : List Nat} {kl : Level} {sk : Array Int} {pk0 pk1 : RnsPoly}
+    {lqs : List Nat} {l : Level} (hc : DrvCtx .bfv n t kqs kl sk pk0 pk1) (hl : Drv.Sch.mkLevel .bfv n lqs t = .ok l) (ht : t ≠ 0)
+    {a : RnsPoly} {e : Array Int} (ha : RnsCanon l a) (hes : e.size = n) (he : ∀ p, p < n → (e.getD p 0).natAbs ≤ 21)
+    (hs : seedSaved l true = true) {U : Rng.Uniform} {xof : Rng.Xof} {seed : Rng.Seed} (hx : SeedExpands U xof l seed a)
+    {plain : Poly} (hp : plain.size ≤ n) (hpm : ∀ i, i < plain.size → plain.getD i 0 < t) (hok : FreshEncOK l 21) :
+    ∃ cdp ct, Drv.C01E.bfvConsts l lqs t = .ok cdp ∧
+      bfvEncrypt l cdp (Spec.prodL lqs % t) ((t + 1) / 2) (.sym sk a (rnsOfInt l e) true) plain = .ok ct ∧
+      expandSeed U xof l (ct.toSeeded seed) = .ok ct ∧
+      bfvDecrypt l sk ct = .ok (trimPlain (padPlain n plain)) :=
+  HC.drv_bfv_encrypt_decrypt_seeded hc hl ht ha hes he hs hx hp hpm hok
+theorem drv_bgv_encrypt_decrypt_seeded : type_of% @HC.drv_bgv_encrypt_decrypt_seeded := @HC.drv_bgv_encrypt_decrypt_seeded
+theorem drv_ckks_encrypt_decrypt_seeded : type_of% @HC.drv_ckks_encrypt_decrypt_seeded := @HC.drv_ckks_encrypt_decrypt_seeded
+
+/-- when flag + seed do not fit into one polynomial the seeded call IS the unseeded one -/
+theorem encryptZeroSym_seed_fallback : type_of% @HC.encryptZeroSym_seed_fallback := @HC.encryptZeroSym_seed_fallback
+
+/-! ### THE TAPE FROM THE GENERATORS (Proofs/C01Y; concrete instance: Proofs/C01YW): the ranges of the drawn polynomials that `DrvMode`
+    asks for are THEOREMS about the samplers of the generator model (Model/Rng.lean, specs C16B), for every byte-valued XOF, every
+    generator state and every integer sampler within its range contract (`Rng.randUniform`: `randUniform_contract`) -/
+
+/-- `sample::ternary` at a level's moduli returns `rnsOfInt` of a ternary polynomial -/
+theorem ternary_tape : type_of% @HC.ternary_tape := @HC.ternary_tape
+
+/-- `sample::centered_binomial` returns `rnsOfInt` of a polynomial with ‖e‖∞ ≤ 21 -/
+theorem cbd_tape : type_of% @HC.cbd_tape := @HC.cbd_tape
+
+/-- `sample::uniform` returns a canonical polynomial -/
+theorem uniform_tape : type_of% @HC.uniform_tape := @HC.uniform_tape
+
+/-- `sample::centered_binomial` is total (no rejection loop): every generator state yields an error polynomial -/
+theorem centeredBinomial_total : type_of% @HC.centeredBinomial_total := @HC.centeredBinomial_total
+theorem noiseMany_total2 : type_of% @HC.noiseMany_total2 := @HC.noiseMany_total2
+
+/-- the draws of `Rng.asymCore` (draw order of `asymmetric_with_u_prng`) at the level's parameters are an admissible public-key mode -/
+theorem drvMode_pk_of_prng : type_of% @HC.drvMode_pk_of_prng := @HC.drvMode_pk_of_prng
+
+/-- … at the PREVIOUS level's parameters: admissible mode through the previous level (special-prime path, lower levels) -/
+theorem drvMode_pkPrev_of_prng : type_of% @HC.drvMode_pkPrev_of_prng := @HC.drvMode_pkPrev_of_prng
+
+/-- the draws of `Rng.symCore` (draw order of `symmetric_with_c1_prng`) are an admissible secret-key mode, and the public seed the c1
+    generator delivered expands to the mask (`SeedExpands`: the hypothesis of the seed-compressed theorems) -/
+theorem drvMode_sk_of_prng : type_of% @HC.drvMode_sk_of_prng := @HC.drvMode_sk_of_prng
+
+/-- END TO END FROM THE GENERATOR STATES: BFV through the special prime / lower level; BGV secret key; CKKS head of the chain -/
+theorem drv_bfv_encrypt_decrypt_prng_sp : type_of% @HC.drv_bfv_encrypt_decrypt_prng_sp := @HC.drv_bfv_encrypt_decrypt_prng_sp
+theorem drv_bgv_encrypt_decrypt_prng_sk : type_of% @HC.drv_bgv_encrypt_decrypt_prng_sk := @HC.drv_bgv_encrypt_decrypt_prng_sk
+theorem drv_ckks_encrypt_decrypt_prng_pk : type_of% @HC.drv_ckks_encrypt_decrypt_prng_pk := @HC.drv_ckks_encrypt_decrypt_prng_pk
+
+/-- the model's generator-level function IS the tape-level function on the tape the generators deliver -/
+theorem encryptZeroAsymPrng_eq_tape : type_of% @HC.encryptZeroAsymPrng_eq_tape := @HC.encryptZeroAsymPrng_eq_tape
+
+/-- WHATEVER the model's generator-level public-key encryption of zero (`encryptZeroAsymPrng`) returns at the head of the chain is a fresh
+    encryption of zero with ‖ν‖∞ ≤ 21(2N+1) — every generator state, byte-valued XOF, integer sampler within its contract -/
+theorem encryptZeroAsymPrng_fresh : type_of% @HC.encryptZeroAsymPrng_fresh := @HC.encryptZeroAsymPrng_fresh
+
+/-- … the generator-level secret-key encryption of zero (`encryptZeroSymPrng`): fresh with ‖ν‖∞ ≤ 21 at every level, either seed flag;
+    the returned public seed expands to the mask, which is polynomial 1 when the seed is saved -/
+theorem encryptZeroSymPrng_fresh : type_of% @HC.encryptZeroSymPrng_fresh := @HC.encryptZeroSymPrng_fresh
+
+/-- THE KEY MATERIAL FROM THE GENERATORS: ternary draw ↦ secret (stored form = `genSecretKey` of the draw), `symCore` draws ↦ public key;
+    together a `DrvCtx` -/
+theorem drvCtx_of_prng : type_of% @HC.drvCtx_of_prng := @HC.drvCtx_of_prng
+
+/-- the SHARP BFV margin on the inputs, 2·t·(B+1) ≤ Q·(1 − 2^-53) (written 2^54·t·(B+1) ≤ (2^53 − 1)·Q), implies `FreshEncOK l B` -/
+theorem mkLevel_freshEncOK_sharp : type_of% @HC.mkLevel_freshEncOK_sharp := @HC.mkLevel_freshEncOK_sharp
+theorem drv_bfv_encrypt_decrypt_inputs_sharp : type_of% @HC.drv_bfv_encrypt_decrypt_inputs_sharp := @HC.drv_bfv_encrypt_decrypt_inputs_sharp
 
 end HC.C01
